@@ -32,5 +32,6 @@ def gen(tier, rng):
     if thorough:
         yield nodegen.stale_attempt_script(rng, "stale-attempt-tap", 0, 62, mode="switch", dev="tap")
     yield nodegen.healing_script(rng, "heal-asym-12", 2, pt=60, chaos=100, asym=(1, 2))
+    yield nodegen.forge_script(rng, "forged-seals", rng.choice([1, 2, 3]))
     for i in range(20 if thorough else 3):
         yield nodegen.attack_script(rng, "attack-%d" % i, rng.choice([2, 3]), 14, long_gap=rng.choice([30, 61, 121]))
